@@ -53,6 +53,74 @@ fn params_for(method: &str, uri: &str) -> Value {
 }
 
 static DEEP: std::sync::OnceLock<Vec<String>> = std::sync::OnceLock::new();
+static WORKSPACE: std::sync::OnceLock<std::path::PathBuf> = std::sync::OnceLock::new();
+
+/// A workspace folder on disk for `initialize` (same content in every process, so a replay file
+/// that names it stays valid): sources that are fine, faulty, in another encoding, not text at
+/// all, a *directory* with a source extension, and entries that are not sources.
+pub fn workspace() -> &'static std::path::PathBuf {
+    WORKSPACE.get_or_init(|| {
+        let dir = verif_root().join(".build/tmp/c12-workspace");
+        let _ = std::fs::create_dir_all(dir.join("sub.st"));
+        let w = |n: &str, b: &[u8]| {
+            let _ = std::fs::write(dir.join(n), b);
+        };
+        w("good.st", b"FUNCTION_BLOCK fb\nVAR_INPUT\na : INT;\nEND_VAR\nEND_FUNCTION_BLOCK\n");
+        w("bad.st", b"PROGRAM q\nVAR\nx : INT\nEND_VAR\nEND_PROGRAM\n");
+        w("sem.st", b"PROGRAM r\nVAR\nx : INT;\nEND_VAR\nx := nowhere;\nEND_PROGRAM\n");
+        let mut u16le = vec![0xff, 0xfe];
+        for u in "TYPE\nlevel : (lo, hi);\nEND_TYPE\n".encode_utf16() {
+            u16le.extend(u.to_le_bytes());
+        }
+        w("utf16.st", &u16le);
+        w("bin.st", &[0u8, 159, 146, 150, 255, 254, 0, 0, 13, 10, 39, 40, 42]);
+        w("UPPER.ST", b"TYPE\nt1 : INT;\nEND_TYPE\n");
+        w("empty.iec", b"");
+        w("notes.txt", b"not a source");
+        w("sub.st/inner.st", b"PROGRAM inner\nEND_PROGRAM\n");
+        dir
+    })
+}
+
+fn file_uri(p: &std::path::Path) -> String {
+    format!("file://{}", p.display())
+}
+
+/// `initialize` with the ways a client can describe its workspace
+fn initialize_variant(t: &mut Tape) -> (Value, &'static str, Vec<String>) {
+    let ws = workspace();
+    let wsf = |u: String| json!({"uri": u, "name": "w"});
+    let in_ws: Vec<String> = ["good.st", "bad.st", "utf16.st", "new.st", "sub.st", "sub.st/inner.st"].iter().map(|n| file_uri(&ws.join(n))).collect();
+    let (folders, root, kind, uris): (Value, Value, &'static str, Vec<String>) = match t.below(12) {
+        0..=5 => (Value::Null, Value::Null, "init.plain", vec![]),
+        6 => (json!([]), Value::Null, "init.no-folders", vec![]),
+        7 | 8 => (json!([wsf(file_uri(ws))]), json!(file_uri(ws)), "init.workspace-folder", in_ws),
+        9 => (json!([wsf(file_uri(&ws.join("does-not-exist")))]), Value::Null, "init.missing-folder", vec![]),
+        10 => (json!([wsf("untitled:w".into())]), Value::Null, "init.non-file-folder", vec![]),
+        _ => (json!([wsf(file_uri(&ws.join("good.st"))), wsf(file_uri(ws))]), Value::Null, "init.folder-is-a-file", in_ws),
+    };
+    let mut m = lsp_initialize(0);
+    if !folders.is_null() {
+        m["params"]["workspaceFolders"] = folders;
+    }
+    if !root.is_null() {
+        m["params"]["rootUri"] = root;
+    }
+    (m, kind, uris)
+}
+
+/// the shapes a request id may have (LSP: integer in the i32 range, or string)
+fn request_id(t: &mut Tape, n: i64, prefix: &str) -> Value {
+    match t.below(12) {
+        0..=5 => json!(n),
+        6 => json!(format!("{}{}", prefix, n)),
+        7 => json!(n.to_string()),
+        8 => json!(2_000_000_000 + n),
+        9 => json!(-n),
+        10 => json!(format!("{}-{}-\u{e9}\"\\ {}", prefix, "x".repeat(120), n)),
+        _ => json!(format!("{}{}", prefix, n)),
+    }
+}
 
 /// nested parentheses / IF statements 40, 120 and 300 deep, kept only when `ironplcc check` ends
 /// normally on them (the main thread of the command line has the larger stack)
@@ -84,7 +152,13 @@ fn deep_docs() -> &'static Vec<String> {
 }
 
 pub fn gen_script(t: &mut Tape, gates: &Gates, max_len: usize) -> Script {
-    let mut s = Script { messages: vec![lsp_initialize(0), lsp_initialized()], requests: vec![(json!(0), "initialize".into())], doc_notifications: vec![], kinds: vec![] };
+    let (init, init_kind, ws_uris) = if gates.want("INITIALIZE_WITH_WORKSPACE") { initialize_variant(t) } else { (lsp_initialize(0), "init.plain", vec![]) };
+    let mut s = Script { messages: vec![init, lsp_initialized()], requests: vec![(json!(0), "initialize".into())], doc_notifications: vec![], kinds: vec![init_kind] };
+    let mut uris: Vec<&str> = URIS.to_vec();
+    // documents of the workspace folder are opened more often than the others
+    for _ in 0..3 {
+        uris.extend(ws_uris.iter().map(|u| u.as_str()));
+    }
     // documents: the fixed small ones, a few shapes that have tripped servers (a statement keyword
     // without its ';', non-ASCII text, CRLF, a comment at the very end, an OSCAT header), and two
     // documents of the program generator in wild spelling
@@ -115,8 +189,8 @@ pub fn gen_script(t: &mut Tape, gates: &Gates, max_len: usize) -> Script {
     let mut next_id: i64 = 1;
     let mut version: HashMap<String, i64> = HashMap::new();
     for _ in 0..n {
-        let uri = *t.pick(URIS);
-        let kind = t.below(10);
+        let uri = *t.pick(&uris);
+        let kind = t.below(11);
         match kind {
             0 | 1 => {
                 let v = version.entry(uri.to_string()).or_insert(0);
@@ -149,7 +223,7 @@ pub fn gen_script(t: &mut Tape, gates: &Gates, max_len: usize) -> Script {
                 });
             }
             4 | 5 => {
-                let id = if t.ratio(1, 4) { json!(format!("s{}", next_id)) } else { json!(next_id) };
+                let id = request_id(t, next_id, "s");
                 next_id += 1;
                 s.messages.push(lsp_semantic_tokens(id.clone(), uri));
                 s.requests.push((id, "textDocument/semanticTokens/full".into()));
@@ -158,17 +232,35 @@ pub fn gen_script(t: &mut Tape, gates: &Gates, max_len: usize) -> Script {
             6 => {
                 if gates.want("REQUEST_FOR_UNIMPLEMENTED_METHOD") {
                     let m = *t.pick(UNKNOWN_REQUESTS);
-                    let id = if t.ratio(1, 4) { json!(format!("u{}", next_id)) } else { json!(next_id) };
+                    let id = request_id(t, next_id, "u");
                     next_id += 1;
-                    s.messages.push(json!({"jsonrpc": "2.0", "id": id, "method": m, "params": params_for(m, uri)}));
+                    let mut msg = json!({"jsonrpc": "2.0", "id": id, "method": m, "params": params_for(m, uri)});
+                    if t.ratio(1, 5) {
+                        // "params" may be omitted
+                        msg.as_object_mut().unwrap().remove("params");
+                    }
+                    s.messages.push(msg);
                     s.requests.push((id, m.to_string()));
                     s.kinds.push("unknown-request");
                 }
             }
             7 => {
                 let m = *t.pick(UNKNOWN_NOTIFICATIONS);
-                s.messages.push(json!({"jsonrpc": "2.0", "method": m, "params": params_for(m, uri)}));
+                let mut msg = json!({"jsonrpc": "2.0", "method": m, "params": params_for(m, uri)});
+                if m == "$/cancelRequest" && !s.requests.is_empty() && t.flag() {
+                    // cancelling a request that was really sent (it may or may not be answered yet)
+                    let k = t.below(s.requests.len());
+                    msg["params"]["id"] = s.requests[k].0.clone();
+                } else if m.starts_with("custom/") && t.flag() {
+                    msg.as_object_mut().unwrap().remove("params");
+                }
+                s.messages.push(msg);
                 s.kinds.push("unknown-notification");
+            }
+            10 => {
+                // the document is closed; later requests for it are requests for an unopened one
+                s.messages.push(lsp_did_close(uri));
+                s.kinds.push("didClose");
             }
             8 => {
                 if gates.want("CLIENT_RESPONSE_MESSAGE") {
@@ -255,7 +347,7 @@ fn check_tape(tape: &[u8], gates: &Gates, stats: &mut Stats, counting: bool, max
     let run = lsp_run(&s.messages);
     if counting {
         let has_req = s.requests.len() > 2;
-        let unusual = s.kinds.iter().any(|k| *k != "didChange.1");
+        let unusual = s.kinds.iter().any(|k| *k != "didChange.1" && !k.starts_with("init."));
         stats.case(has_req && unusual, hash_str(&serde_json::to_string(&s.messages).unwrap()));
         for k in &s.kinds {
             stats.class(&format!("msg.{}", k));
@@ -318,7 +410,12 @@ pub fn run(ctx: &Ctx) -> i32 {
 /// witness {"kind":"script","messages":[...]} – messages between the handshake and shutdown
 pub fn witness(w: &Value) -> Result<(), String> {
     let mid: Vec<Value> = w["messages"].as_array().cloned().unwrap_or_default();
-    let mut s = Script { messages: vec![lsp_initialize(0), lsp_initialized()], requests: vec![(json!(0), "initialize".into())], doc_notifications: vec![], kinds: vec![] };
+    let _ = workspace();
+    let init = match w.get("initialize") {
+        Some(i) if i.is_object() => i.clone(),
+        _ => lsp_initialize(0),
+    };
+    let mut s = Script { messages: vec![init, lsp_initialized()], requests: vec![(json!(0), "initialize".into())], doc_notifications: vec![], kinds: vec![] };
     for m in mid {
         if let (Some(id), Some(method)) = (m.get("id"), m.get("method")) {
             s.requests.push((id.clone(), method.as_str().unwrap_or("").to_string()));
@@ -344,7 +441,7 @@ pub fn replay(ctx: &Ctx, v: &Value) -> i32 {
         // strip handshake and shutdown/exit from the recorded script
         let all: Vec<Value> = v["inputs"]["script"].as_array().cloned().unwrap_or_default();
         let mid: Vec<Value> = if all.len() >= 4 { all[2..all.len() - 2].to_vec() } else { vec![] };
-        witness(&json!({"messages": mid}))
+        witness(&json!({"messages": mid, "initialize": all.first().cloned().unwrap_or(Value::Null)}))
     };
     match r {
         Ok(()) => {
